@@ -402,6 +402,67 @@ def small_numbers(v):
         return 'f:' + repr(v)
     return v
 
+def _hex(x):
+    return (x if isinstance(x, bytes) else str(x).encode()).hex()
+
+def _pairs(m):
+    if not isinstance(m, dict):
+        return []
+    return [[_hex(k), _hex(v)] for k, v in sorted(m.items())]
+
+def _b64hex(s):
+    import base64
+    if not isinstance(s, str) or s == '':
+        return ''
+    try:
+        return base64.b64decode(s).hex()
+    except Exception:
+        return 'undecodable:' + _hex(s)
+
+def canon_promise(p):
+    """re-encoding of a promise object as returned over HTTP or gRPC (no comparison here)"""
+    if not isinstance(p, dict) or 'id' not in p:
+        return dict(present=False, id='', data='', headers=[], tags=[], key='', timeout='', state='', vdata='', vheaders=[], vkey='')
+    par = p.get('param') if isinstance(p.get('param'), dict) else {}
+    val = p.get('value') if isinstance(p.get('value'), dict) else {}
+    return dict(present=True, id=_hex(p.get('id', '')), data=_b64hex(par.get('data', '')), headers=_pairs(par.get('headers')),
+                tags=_pairs(p.get('tags')), key=_hex(p.get('idempotencyKeyForCreate', '') or ''), timeout=str(p.get('timeout', '')),
+                state=str(p.get('state', '')), vdata=_b64hex(val.get('data', '')), vheaders=_pairs(val.get('headers')),
+                vkey=_hex(p.get('idempotencyKeyForComplete', '') or ''))
+
+def canon_c20(e, family):
+    """attach the canonical re-encoding `got` (and the kind of step) to a step observation"""
+    name = e.get('name', '')
+    e['kind'] = 'read' if name.startswith('read-') else ('write' if name == 'write' else 'other')
+    e['after'] = name.endswith('-3') or name.endswith('-4')
+    j = e.get('json')
+    got = canon_promise(None)
+    if e['do'] in ('http', 'grpc') and isinstance(j, dict):
+        if name == 'list':
+            lst = []
+            for p in j.get('promises', []) if isinstance(j.get('promises'), list) else []:
+                pid = str(p.get('id', ''))
+                tags = p.get('tags') if isinstance(p.get('tags'), dict) else {}
+                lst.append(dict(prefix=_hex(pid[:pid.rfind('.')] if '.' in pid else pid), sched=_hex(tags.get('resonate:schedule', ''))))
+            got = dict(list=lst)
+        else:
+            got = canon_promise(j.get('promise') if e['do'] == 'grpc' else j)
+    elif e['do'] == 'received':
+        lst = []
+        for m in j if isinstance(j, list) else []:
+            if not isinstance(m, dict): continue
+            t = m.get('task') if isinstance(m.get('task'), dict) else {}
+            href = m.get('href') if isinstance(m.get('href'), dict) else {}
+            claim = str(href.get('claim', ''))
+            path = claim[claim.find('/', claim.find('//') + 2):] if '//' in claim else claim
+            path = path[:path.rfind('/')] if '/' in path else path     # drop the trailing /<counter>
+            lst.append(dict(task=_hex(t.get('id', '')), claim=_hex(path)))
+        got = dict(list=lst)
+    e['got'] = got
+    e['json'] = []
+    e['body'] = ''
+    return e
+
 def run_scenarios(pid, tier, seed):
     t0 = time.time()
     rundir = f'{V}/run/{pid}-{tier}-{os.getpid()}'
@@ -444,10 +505,16 @@ def run_scenarios(pid, tier, seed):
             if e.get('name') == 'hostile': hostile_classes[e['sid']] = e['class']
         if e['e'] == 'end':
             e['logtail'] = e.get('logtail', '')[:300]
+        if pid == 'C20' and e['e'] == 'begin':
+            e['varied'], e['proto'] = meta[e['sid']]['varied'], meta[e['sid']]['proto']
+        if pid == 'C20' and e['e'] == 'step':
+            e = canon_c20(e, meta[e['sid']]['family'])
         e = small_numbers(e)
         out.append(json.dumps(e))
         if len(samples) < 4 and e['e'] == 'step' and e.get('name') == 'hostile':
             samples.append({k: e[k] for k in ('sid', 'do', 'code', 'class', 'alive')} | {'scenario': {k: meta[e['sid']].get(k) for k in ('ep', 'field', 'raw', 'expect')}})
+        if pid == 'C20' and len(samples) < 4 and e['e'] == 'step' and e.get('kind') == 'read':
+            samples.append({'sid': e['sid'], 'step': e['name'], 'got': e['got'], 'scenario': {k: meta[e['sid']].get(k) for k in ('family', 'varied', 'proto')}})
     # chunks at scenario boundaries
     chunks, cur = [], []
     per = max(1, (len(lines) + 7) // 8)
